@@ -543,11 +543,11 @@ func (w *World) runClient(ci int) {
 				c.call = conn.Go(c.Method, args, reply, c.done)
 			}
 			outstanding = append(outstanding, c)
-		case "gos":
+		case "gos", "rts":
 			if shared == nil {
 				n := 0
 				for _, o := range cp.Ops {
-					if o.Kind == "gos" {
+					if o.Kind == "gos" || o.Kind == "rts" {
 						n++
 					}
 				}
@@ -556,7 +556,13 @@ func (w *World) runClient(ci int) {
 			c := w.newCall(ci, cp.Conn, op, "gos")
 			args, reply := w.argsAndReply(c)
 			c.Invoke, c.InvokeT = simrt.Seq(), simrt.Now()
-			c.call = conn.Go(c.Method, args, reply, shared)
+			if op.Kind == "rts" {
+				// RoundTrip with the caller's own Call on the same shared channel
+				c.call = &rpc.Call{ServiceMethod: c.Method, Args: args, Reply: reply, Done: shared}
+				conn.RoundTrip(c.call)
+			} else {
+				c.call = conn.Go(c.Method, args, reply, shared)
+			}
 			sharedCalls = append(sharedCalls, c)
 		case "waits":
 			pendingN := 0
